@@ -322,4 +322,30 @@ def workload(ctx, lentil):
             ctx.bucket('scalar-attributes')
             m2 = (base > 0.1 * base.max()).astype(float)
             lentil.Pupil(amplitude=amp, opd=0, pixelscale=dx, focal_length=z).rescale(s)
-            lentil.Plane(amplitude=1, opd=0, mask=m2, pixelscale=dx).rescale(s)
+            a0 = float(rng.uniform(0.3, 2.0)) if i % 2 else 1
+            pm = lentil.Pupil(amplitude=a0, opd=0, mask=m2, pixelscale=dx, focal_length=z)
+            try:
+                qm = pm.rescale(s)
+                # a constant amplitude over an array mask: the power |a|^2 * (masked samples) is preserved, the mask area grows by
+                # s^2 (checked by the mask oracle), so the constant has to come out as a / s - just like an amplitude array does
+                with probe.quiet():
+                    Pm0 = float(np.sum(np.abs((lentil.Wavefront(wl) * pm).field) ** 2))
+                    Pm1 = float(np.sum(np.abs((lentil.Wavefront(wl) * qm).field) ** 2))
+                area0, area1 = float(m2.sum()), float(np.asarray(qm.mask).sum())
+                ctx.close('power', np.array([Pm1 * (s * s * area0 / max(area1, 1.0))]), np.array([Pm0]), 1e-9, 'rescale|power|scalar-amplitude',
+                          'a plane with a constant amplitude over an array mask does not keep its transmitted power when rescaled',
+                          dict(desc, a=a0, got=np.asarray(qm.amplitude).tolist(), P=[Pm0, Pm1], area=[area0, area1]), scale=Pm0)
+            except Exception as e:
+                ctx.check(False, 'power', f'rescale|scalar-amplitude|raises={type(e).__name__}', str(e), desc)
+            # planes without any array (an attenuator, a tilt, a default pupil or image): only the pixel scale changes
+            for mk_plane in (lambda: lentil.Pupil(amplitude=0.5, pixelscale=dx, focal_length=z), lambda: lentil.Image(pixelscale=dx),
+                             lambda: lentil.Tilt(x=1e-6, y=-2e-6, pixelscale=dx)):
+                try:
+                    p0 = mk_plane()
+                    q0_ = p0.rescale(s)
+                    ctx.check(q0_ is not p0 and q0_.pixelscale is not None and tuple(q0_.pixelscale) == (dx / s, dx / s)
+                              and np.ndim(q0_.mask) == np.ndim(p0.mask), 'pixelscale/s', 'rescale|extent-less|pixelscale',
+                              'rescaling a plane without arrays does not simply divide its pixel scale', dict(desc, cls=type(p0).__name__))
+                except Exception as e:
+                    ctx.check(False, 'pixelscale/s', f'rescale|extent-less|raises={type(e).__name__}',
+                              f'a plane without arrays cannot be rescaled: {type(e).__name__}: {e}', dict(desc))
